@@ -174,13 +174,49 @@ def h_noisy_init(env, spec, n, assign):
                      f"noisy density matrix from a complex initial statevector after {spec} with noise {assign}", tol=tol)
 
 
-def h_noisy_expect(env, spec, n, assign, word):
-    """per term: distribution handed to the sampler = diagonal of the reference state after the noisy basis rotation"""
+def _noisy_expect_init(env, spec, params, circ, nm, ref, n, word, init_index):
+    from tangelo.toolboxes.operators import QubitOperator
+    from harness.c01 import as_array
+    c = env.real("c", lo=-2, hi=2)
+    op = QubitOperator()
+    op.terms[tuple(word)] = c
+    rot = {"X": ("RY", -np.pi / 2), "Y": ("RX", np.pi / 2)}
+    extra = [((rot[p][0], [q], []), rot[p][1]) for q, p in word if p in rot]
+    # reference: the same noisy evolution started from the basis state |init_index> (prepended X gates carry no noise here:
+    # the channels of the model are attached to the gates of `spec` only, and X is not among the noisy gate names used)
+    rho = R.dm_from_state(R.basis_state(n, init_index))
+    for (name, tg, ct), th in list(zip([s_[:3] for s_ in spec], params)) + list(extra):
+        rho = R.dm_apply_unitary_gate(rho, n, name, tg, ct, th if name in PARAM else None)
+        for kind, pr in ref.get(name, []):
+            qs = list(tg) + list(ct or [])
+            if kind == "pauli":
+                for q in qs:
+                    rho = R.dm_pauli_channel(rho, n, q, pr[0], pr[1], pr[2])
+            else:
+                rho = R.dm_depolarize(rho, n, qs, pr)
+    psi = R.basis_state(n, init_index)
+    if env.symbolic:
+        b = backend(env, nm)
+        b.get_expectation_value(op, circ, initial_statevector=as_array(env, psi))
+        probs = b.cirq.sampler_calls[-1]["probs"]
+        env.check_vec_eq(probs, [rho[i][i] for i in range(2 ** n)], f"noisy outcome distribution for term {word} from the initial state |{R.bitstring(init_index, n)}>")
+    else:
+        b = backend(env, nm, n_shots=40000)
+        val = b.get_expectation_value(op, circ, initial_statevector=as_array(env, psi))
+        want = complex(c) * sum((1 if bin(i & sum(1 << (n - 1 - q) for q, _ in word)).count("1") % 2 == 0 else -1) * complex(rho[i][i]).real for i in range(2 ** n))
+        env.check_le(abs(complex(val) - want), 0.04 * max(1.0, abs(complex(c))), f"noisy expectation value for term {word} from the initial state |{R.bitstring(init_index, n)}> (40000 shots, > 5 sigma)")
+
+
+def h_noisy_expect(env, spec, n, assign, word, init_index=None):
+    """per term: distribution handed to the sampler = diagonal of the reference state after the noisy basis rotation;
+    init_index: the evolution starts from that basis state, handed in as initial_statevector"""
     from tangelo.linq import Circuit
     from tangelo.toolboxes.operators import QubitOperator
     gates, params = build_gates(env, spec)
     circ = Circuit(gates, n_qubits=n)
     nm, ref = make_noise(env, assign)
+    if init_index is not None:
+        return _noisy_expect_init(env, spec, params, circ, nm, ref, n, word, init_index)
     c = env.real("c", lo=-2, hi=2)
     op = QubitOperator()
     op.terms[tuple(word)] = c
@@ -420,6 +456,8 @@ def shapes(tier, seed):
     for i, (ci, ws) in enumerate([(0, [[(0, "Y")], [(0, "X")]]), (3, [[(0, "Y"), (1, "Z")], [(0, "X"), (1, "Y")], [(1, "Z")]]), (4, [[(0, "Y"), (1, "Y")], [(1, "Y")]])]):
         sp_, n_, as_ = cases[ci]
         out.append(Shape(f"prepared/{i}", h_noisy_prepared, dict(spec=sp_, n=n_, assign=as_, words=ws), modules=MODS, max_paths=64))
+    out.append(Shape("expect-init/0", h_noisy_expect, dict(spec=cases[3][0], n=2, assign=cases[3][2], word=[(0, "Z")], init_index=2), modules=MODS, max_paths=64))
+    out.append(Shape("expect-init/1", h_noisy_expect, dict(spec=cases[2][0], n=2, assign=cases[2][2], word=[(1, "Z")], init_index=1), modules=MODS, max_paths=64))
     for case in ("extend-after-use", "zero-first/pauli-depol", "zero-first/depol-pauli"):
         out.append(Shape(f"model-history/{case}", h_model_history, dict(case=case), modules=MODS, max_paths=32))
     for case in ("type", "pauli-notlist", "pauli-len", "depol-list", "twice", "no-shots", "unsupported-backend", "prob>1", "prob<0",
